@@ -214,7 +214,12 @@ def site_key(P, f, s):
     return "%s # %s%s # %s" % (fn, (arm + " # ") if arm else "", s.kind, s.detail)
 
 
+_PROGRAM = None
+
+
 def inventory(P, roots, rta=True, stop=()):
+    global _PROGRAM
+    _PROGRAM = P
     reach = P.reachable(roots, rta=rta, stop=stop)
     out = []
     for p in sorted(reach):
@@ -772,6 +777,62 @@ def _canon(f, op, depth=3):
     return "?"
 
 
+def _closure_of(f, op):
+    r = f.root_of(op, through_named=True)
+    if r[0] == "rv" and r[3]["rv"]["k"] == "agg" and r[3]["rv"].get("ak") == "closure":
+        return r[3]["rv"]["def"]
+    if r[0] == "const" and "closure" in r[1]:
+        return r[1]["closure"]
+    return None
+
+
+def _closure_result(P, cpath):
+    """name-free description of what a predicate closure returns (its `_0` definitions)."""
+    c = P.funcs.get(cpath)
+    if c is None:
+        return "?"
+    outs = []
+    for d in c.defs.get(0, []):
+        if d[1] == "term":
+            t = d[2]
+            outs.append("%s(%s)" % ((M.callee_name(t) or "indirect").split("::")[-1], ",".join(_canon(c, a, 2) for a in t["args"][:2])))
+        else:
+            rv = d[2]["rv"]
+            if rv["k"] == "binop":
+                outs.append("%s(%s,%s)" % (rv["op"], _canon(c, rv["a"]), _canon(c, rv["b"])))
+            elif rv["k"] == "use":
+                outs.append(_canon(c, rv["a"]))
+            else:
+                outs.append(rv["k"])
+    return "|".join(sorted(set(outs))) or "?"
+
+
+def _via_closures(P, f, place_local, depth=8):
+    """closures (filter/map/position/find/and_then predicates ..) on the way from a value back to its sources."""
+    out = []
+    cur = ("place", {"l": place_local, "p": []})
+    r = f.root_of({"copy": {"l": place_local, "p": []}}, through_named=True)
+    for _ in range(depth):
+        if r[0] == "place":
+            dd = [d for d in f.defs.get(r[1]["l"], []) if d[1] == "term"]
+            if len(dd) != 1:
+                break
+            r = ("call", dd[0][0], dd[0][2])
+            continue
+        if r[0] != "call":
+            break
+        t = r[2]
+        n = (M.callee_name(t) or "?").split("::")[-1]
+        for a in t["args"][1:]:
+            cp = _closure_of(f, a)
+            if cp:
+                out.append("via %s(|..| %s)" % (n, _closure_result(P, cp)))
+        if not t["args"]:
+            break
+        r = f.root_of(t["args"][0], through_named=True)
+    return out
+
+
 def guard_fingerprint(f, bb):
     """the conditions under which control can reach block bb: every switch edge that bb is only reachable through,
     described without local names (so renaming does not change it, but a changed operator/constant/callee does)."""
@@ -810,12 +871,19 @@ def guard_fingerprint(f, bb):
         dd = f.single_def(pl["l"]) if not pl["p"] else None
         if dd is not None and dd[1] == "term" and (M.callee_name(dd[2]) or "").endswith(("::next", "::next_back")):
             continue
+        hit = False
         for tgt, names in sw["by_target"].items():
             if bb in D.edge_dominated(f, sw["bb"], tgt):
                 out.add("%s is %s" % (D.short_ty(sw["ety"]), "|".join(sorted(names))))
+                hit = True
         o = sw["otherwise"]
         if o not in sw["by_target"] and sw["otherwise_variants"] and bb in D.edge_dominated(f, sw["bb"], o):
             out.add("%s is %s" % (D.short_ty(sw["ety"]), "|".join(sorted(sw["otherwise_variants"]))))
+            hit = True
+        if hit and _PROGRAM is not None and not pl["p"]:
+            # the tested Option/Result came through predicate closures: their conditions are part of the guard
+            for v in _via_closures(_PROGRAM, f, pl["l"]):
+                out.add(v)
     f._fp_cache[bb] = sorted(out)
     return f._fp_cache[bb]
 
@@ -976,6 +1044,34 @@ def valstack_writers(P, res):
                     "skipping the arguments of a call makes the call pop an empty value stack and the eval thread panics",
                     f.loc(f.blocks[pb]["term"].get("fn_span")))
     res.floor("SKIP-BALANCE", "exprs_to_eval.pop() in handle_run_request", len(pops), 1)
+    # WHO-CALLS-EVAL: the interpreter loop may only be entered from the reviewed entry points. A new direct caller
+    # starts evaluating whatever happens to be pending (entries of an earlier, failed evaluation included).
+    callers_tbl = json.load(open(os.path.join(VERIF, "tables", "valstack_writers.json")))["eval_callers"]
+    callers = sorted({g.path.split("::{closure")[0] for g in P.funcs.values() for _, t in g.calls() if M.callee_name(t) == "eval::eval"})
+    for c in callers:
+        if c in callers_tbl:
+            res.ok("WHO-CALLS-EVAL", c)
+        else:
+            res.bad("WHO-CALLS-EVAL", "%s # calls eval::eval" % c,
+                    "`%s` enters the interpreter loop directly; only the reviewed entry points may (a new evaluation must go through "
+                    "eval_toplevel_exprs, which replaces the entries left pending by an earlier failed evaluation)" % c, P.funcs[c].loc() if c in P.funcs else None)
+    res.floor("WHO-CALLS-EVAL", "direct callers of eval::eval", len(callers), 5)
+    # TOPLEVEL-REPLACE: eval_toplevel_exprs assigns the whole exprs_to_eval field before it calls eval
+    te = P.funcs.get("eval::eval_toplevel_exprs")
+    if te is None:
+        raise M.MissingAnchor("eval::eval_toplevel_exprs")
+    stores = []
+    for bi, b in enumerate(te.blocks):
+        for st in b["stmts"]:
+            if st["s"] == "assign" and te.field_path(st["place"])[-1:] == ["exprs_to_eval"]:
+                stores.append(bi)
+    ev = [bi for bi, t in te.calls() if M.callee_name(t) == "eval::eval"]
+    if stores and ev and all(any(te.dominates(sb, eb) for sb in stores) for eb in ev):
+        res.ok("TOPLEVEL-REPLACE", "eval_toplevel_exprs: exprs_to_eval is replaced before every call of eval")
+    else:
+        res.bad("TOPLEVEL-REPLACE", "eval::eval_toplevel_exprs # no-replace",
+                "eval_toplevel_exprs does not replace the frame's pending entries before evaluating (stores=%d, eval calls=%d): entries "
+                "left by an earlier failed evaluation would run after the new request" % (len(stores), len(ev)), te.loc())
 
 
 def stale_rows(ctx, layers):
